@@ -27,7 +27,9 @@ fn run_suite<C: Suite>(ctx: &mut Ctx) {
     let mut g = base;
     let mut erng = ctx.rng_l(base, "edges");
     let edges = gen::edge_scalars(&mut erng);
-    let lens: &[usize] = ctx.tier.pick(&[0usize, 1, 8, 33, 257][..], &[0usize, 1, 8, 31, 32, 33, 128, 257, 4096][..]);
+    // 4097 / 5000 / 70000: a verifier that hashes only a prefix of long messages is visible through
+    // the last-bit flip and the truncate / extend variants, which every tuple carries
+    let lens: &[usize] = ctx.tier.pick(&[0usize, 1, 8, 33, 257, 5000][..], &[0usize, 1, 8, 31, 32, 33, 128, 257, 4096, 4097, 16385, 70000][..]);
     let exhaustive_len: usize = ctx.tier.pick(8, 32);
     for scheme in SCHEMES {
         for kind in ["bitflip", "sig", "pk", "msglen", "relabel", "valid"] {
